@@ -64,6 +64,9 @@ type ClientSc struct {
 	Suffix     int        `json:"suffix,omitempty"`      // number of sequential fault-free calls at the end (recovery oracle)
 	FinalClose bool       `json:"final_close,omitempty"` // harness closes the client at the end (leak oracle)
 	Capacity   int        `json:"capacity,omitempty"`
+	// DiscoverMode: how the scripted server answers the discovery exchange: 0 conformant, 1 empty list
+	// (no common version: Dial must fail), 2 failed item (general failure)
+	DiscoverMode int `json:"discover_mode,omitempty"`
 }
 
 // callRec is the recorded history of one call.
@@ -213,6 +216,13 @@ func (w *clientWorld) peerLoop(c *simnet.Conn, connIdx int) {
 				resp = w.respond(w, &req, connIdx)
 			} else {
 				resp = echoResponse(&req)
+				if w.sc.DiscoverMode != 0 && len(req.BatchItem) == 1 && req.BatchItem[0].Operation == kmip.OperationDiscoverVersions {
+					if w.sc.DiscoverMode == 1 {
+						resp.BatchItem[0].ResponsePayload = &payloads.DiscoverVersionsResponsePayload{}
+					} else {
+						resp.BatchItem[0] = kmip.ResponseBatchItem{Operation: kmip.OperationDiscoverVersions, ResultStatus: kmip.ResultStatusOperationFailed, ResultReason: kmip.ResultReasonGeneralFailure, ResultMessage: "no"}
+					}
+				}
 			}
 			err = st.Send(resp)
 		}
@@ -254,9 +264,10 @@ func echoResponse(req *kmip.RequestMessage) *kmip.ResponseMessage {
 
 // observeCtx becomes cancelled at the k-th time the code under test observes it.
 type observeCtx struct {
-	k, n  atomic.Int64
-	done  chan struct{}
-	fired atomic.Bool
+	k, n     atomic.Int64
+	done     chan struct{}
+	fired    atomic.Bool
+	deadline bool // reports context.DeadlineExceeded (an expired deadline) instead of context.Canceled
 }
 
 func newObserveCtx(k int) *observeCtx {
@@ -269,11 +280,26 @@ func (c *observeCtx) observe() {
 		close(c.done)
 	}
 }
-func (c *observeCtx) Deadline() (time.Time, bool) { return time.Time{}, false }
-func (c *observeCtx) Done() <-chan struct{}       { c.observe(); return c.done }
+func (c *observeCtx) Deadline() (time.Time, bool) {
+	if c.deadline {
+		return time.Unix(946684800, 0).Add(time.Hour), true
+	}
+	return time.Time{}, false
+}
+
+// expire fires the context from outside (a canceller task), whatever the observation count.
+func (c *observeCtx) expire() {
+	if !c.fired.Swap(true) {
+		close(c.done)
+	}
+}
+func (c *observeCtx) Done() <-chan struct{} { c.observe(); return c.done }
 func (c *observeCtx) Err() error {
 	c.observe()
 	if c.fired.Load() {
+		if c.deadline {
+			return context.DeadlineExceeded
+		}
 		return context.Canceled
 	}
 	return nil
@@ -330,6 +356,23 @@ func (w *clientWorld) doCall(caller, idx int, cs CallSc, suffix bool) *callRec {
 	case "observe":
 		observed = newObserveCtx(cs.ObserveK)
 		ctx = observed
+	case "observe-deadline":
+		observed = newObserveCtx(cs.ObserveK)
+		observed.deadline = true
+		ctx = observed
+	case "expire":
+		// a deadline that expires at an arbitrary yield (real timers only fire when every task is blocked)
+		oc := newObserveCtx(1 << 30)
+		oc.deadline = true
+		ctx = oc
+		ny := cs.CancelYields
+		w.s.Spawn("expirer", func() {
+			for i := 0; i < ny; i++ {
+				w.s.YieldNow("expirer-dally")
+			}
+			w.s.Fault("deadline-expiry")
+			oc.expire()
+		})
 	}
 	var pls []kmip.OperationPayload
 	for _, tok := range rec.tokens {
